@@ -18,4 +18,24 @@ Definition i_check (c : icase) : bool :=
   match i_model c with
   | (Unmodelled _, _) => true
   | (m, st) => res_eqb val_eqb m (i_impl c) && log_eqb (log st) (i_log c) end.
+(* Match fills in the defaults of absent Optional keys in the iteration order of a Python set: the ORDER of those entries in
+   the result dict is unspecified (hash order), so for match results dicts are compared as unordered collections of entries *)
+Fixpoint val_peqb_f (fuel : nat) (a b : val) {struct fuel} : bool :=
+  match fuel with O => false | S fuel =>
+  let eqb := val_peqb_f fuel in
+  let fix has (k v : val) (y : list (val * val)) := match y with
+      | [] => false | (k', v') :: r => (eqb k k' && eqb v v') || has k v r end in
+  let fix sub (x y : list (val * val)) := match x with [] => true | (k, v) :: r => has k v y && sub r y end in
+  match a, b with
+  | VList i x, VList j y => Nat.eqb i j && list_eqb eqb x y
+  | VTuple i x, VTuple j y => Nat.eqb i j && list_eqb eqb x y
+  | VDict i o x, VDict j p y => Nat.eqb i j && Bool.eqb o p && Nat.eqb (length x) (length y) && sub x y && sub y x
+  | _, _ => val_eqb a b end end.
+Definition val_peqb (a b : val) : bool := val_peqb_f (S (depth a)) a b.
+
+Definition i_check_perm (c : icase) : bool :=
+  match i_model c with
+  | (Unmodelled _, _) => true
+  | (m, st) => res_eqb val_peqb m (i_impl c) && log_eqb (log st) (i_log c) end.
+
 Definition i_unmodelled (c : icase) : bool := match i_model c with (Unmodelled _, _) => true | _ => false end.
